@@ -61,6 +61,9 @@ def impl(case):
     X = {lab(v) for v in case["X"]}
     Y = {lab(v) for v in case["Y"]}
     Z = {lab(v) for v in case["Z"]}
+    if C.warm_decide(case, 4):
+        # query, edit the same object in place, query again (per-object memo tables / cached views go stale)
+        C.warmup(G, lambda: pywhy_nx.m_separated(G, set(X), set(Y), set(Z)), layers=("directed", "bidirected", "undirected"))
     before = C.snapshot(G)
 
     def call(a, b):
